@@ -221,3 +221,33 @@ for variant, updater in (("min", "nucs/solvers/solver.py::decrease_max"), ("max"
         loops={1: lc},
         ensures=[("C01.optimum_satisfies", f"implies(result is not None and {IS_ASSIGNMENT('result')}, {ALL_HOLD})")],
         tags={"C01": ["C01"], "C03": ["C01"], "wf": ["C16"], "C02": ["C01"], "C17": ["C01"]}, arities=[], timeout_ms=200000)
+
+# ------------------------------------------------------------------ exactly once (C02) through solve_one#enum, partial correctness (termination of the search is not proved)
+SOE = REG.contracts[BS + "solve_one#enum"]
+SOE.ensures = SOE.ensures + SO.ensures[-2:]
+SOE.result = "opt:i64[V]"
+SOE_REQ = [(l, selfify(c)) for l, c, _t in SOE.clauses("requires")]
+STK, TOPV, UPD = "self.shr_domains_stack", "self.stacks_top[0]", "self.dom_update_stack"
+IN_STACK0 = f"0 <= lv0 and lv0 <= old(self.stacks_top)[0] and in_box(old({STK}), lv0)"
+DELIVERED_NOW = f"(trig({TOPV}) == {TOPV} and in_box({STK}, {TOPV}))"  # the top level is a point when it is delivered: sigma is in it iff sigma is what is delivered
+
+
+def h_yield_enum(ex, st, node, args):
+    st.env["delivered"] = st.env["delivered"] + 1
+    now = truth(ex.eval_spec(DELIVERED_NOW, st, {}))
+    ex.oblige(st, "assert", "C02.at_most_once", ex.eval_spec(f"implies({DELIVERED_NOW}, not seen)", st, {}), tags={"C02"}, line=node.lineno)
+    st.env["seen"] = b_or(truth(st.env["seen"]), now)
+
+
+contract(BS + "BacktrackSolver.solve", variant="enum", types={"self": SELF_T}, result="none", props=["C02"],
+    requires=SOE_REQ, env={"yield": h_yield_enum}, ghost={"sigma": "int[D]", "lv0": "int"}, ghost_init={"delivered": 0, "seen": False, "lv": "@lv0"},
+    calls={"solve_one": BS + "solve_one#enum"}, call_ghosts={"solve_one": {"sigma": "sigma", "lv0": "lv"}}, ghost_out={"solve_one": {"lv": "lv"}},
+    loops={1: dict(fingerprint="while True", also_modifies=["delivered", "seen", "lv"], step_ensures=[
+        # after the pop: what was just delivered is separated from every remaining level on that level's recorded split domain (C02.disjoint)
+        ("C02.separated", f"implies(in_box({STK}, {TOPV} + 1), forall(l, 0, {TOPV} + 1, trig(l) == l and (sigma[{UPD}[l, 0]] < {STK}[l, {UPD}[l, 0], MIN] or sigma[{UPD}[l, 0]] > {STK}[l, {UPD}[l, 0], MAX])))"),
+    ], invariant=LOOP_INV + [
+        ("C02.pending", f"implies(sol() and {IN_STACK0} and not seen, 0 <= lv and lv <= {TOPV} and in_box({STK}, lv))"),
+        ("C02.never_again", f"implies(seen, absent({STK}, {TOPV}))"),
+    ])},
+    ensures=[("C02.all_delivered", f"implies(sol() and {IN_STACK0}, seen)")],
+    tags={"C02": ["C02"], "wf": ["C16"], "C01": ["C02"], "C17": ["C02"]}, arities=[], timeout_ms=200000)
